@@ -92,6 +92,12 @@ CELER_FUNCTION size_type UniformGrid::find(value_type value) const
 {
     CELER_EXPECT(value >= this->front() && value < this->back());
     auto bin = static_cast<size_type>((value - data_.front) / data_.delta);
+    if (CELER_UNLIKELY(bin + 1 == this->size()))
+    {
+        // Roundoff for a value just below the back of the grid can give the
+        // index of the last grid point instead of the last bin
+        --bin;
+    }
     CELER_ENSURE(bin + 1 < this->size());
     return bin;
 }
